@@ -2961,6 +2961,9 @@ def get_expr_as_table(expr: ColExpr):
     cols: list[Col] = []
 
     def get_cols(nd: ColExpr):
+        if isinstance(nd, Order):
+            # `Order.iter_children` skips the ordering expression itself (a column used directly as `arrange=` key)
+            nd = nd.order_by
         if isinstance(nd, Col):
             cols.append(nd)
         if not isinstance(nd, EvalAligned):
